@@ -183,7 +183,8 @@ Quiescent(st, healthy) ==
         idleAll == Cardinality(UNION { { <<s.eni, x.a>> : x \in { y \in Ents(s) : y.owner = 0 /\ y.fam = (IF conf.v4 THEN 4 ELSE 6) } } : s \in { t \in tracked : t.status = "InUse" } })
         inUse == Cardinality(UNION { { <<s.eni, x.a>> : x \in { y \in Ents(s) : y.owner # 0 /\ y.fam = (IF conf.v4 THEN 4 ELSE 6) } } : s \in tracked })
         room == \E s \in S : \/ (s.eni = 0 /\ Cardinality(Attached) < conf.maxEni)
-                              \/ (s.status = "InUse" /\ Cardinality({ y \in Ents(s) : y.fam = (IF conf.v4 THEN 4 ELSE 6) }) < conf.cap)
+                              \/ (s.status = "InUse" /\ s.type # "erdma"       \* the reserve is filled with ordinary addresses: an RDMA interface cannot take them
+                                  /\ Cardinality({ y \in Ents(s) : y.fam = (IF conf.v4 THEN 4 ELSE 6) }) < conf.cap)
     IN
     /\ ops = {} /\ OpenReqs = {}                                                                      \* (I) really quiescent
     /\ G("C07", { s.eni : s \in tracked } = Attached)                                                \* interfaces tracked = interfaces in the cloud
